@@ -299,10 +299,10 @@ func main() {
 		return
 	}
 	cases := []Case{{Kind: "structured"}}
-	for i := 0; i < r.Pick(10, 1000); i++ {
+	for i := 0; i < r.Pick(100, 4000); i++ {
 		cases = append(cases, Case{Kind: "random", Stream: fmt.Sprintf("c17/random/%d", i)})
 	}
-	for i := 0; i < r.Pick(4, 60); i++ {
+	for i := 0; i < r.Pick(12, 200); i++ {
 		cases = append(cases, Case{Kind: "consume", Stream: fmt.Sprintf("c17/consume/%d", i)})
 	}
 	// documented panics for invalid widths
